@@ -4,7 +4,7 @@ set -e
 export GOFLAGS=-mod=mod GOPROXY=off GOSUMDB=off GOTOOLCHAIN=local
 V=/verif
 R=${VERIF_REPO:-/repo}
-B=$V/.build
+B=${VERIF_BUILD:-$V/.build}
 mkdir -p $B/instr-out $B/sharness
 rm -f $B/instr-out/*.go $B/sharness/*.go
 if [ ! -x $B/instr ] || [ $V/sched/instr/main.go -nt $B/instr ]; then
